@@ -66,9 +66,14 @@ def run(chk, ctx):
         chk.ob('C17.M', cons + '.value', val == code and type(val) is int,
                '%s.value = %r' % (ci.short, val), detail={'expected': code},
                site=site)
-        chk.ob('C17.M', cons + '.name', nm == name,
-               '%s.name = %r' % (ci.short, nm), detail={'expected': name},
-               site=site)
+        if isinstance(nm, T.Sym):
+            chk.undecide('C17.M', cons + '.name', 'the name is computed at '
+                         'class creation and does not fold: %s' %
+                         T.show(nm)[:80])
+        else:
+            chk.ob('C17.M', cons + '.name', nm == name,
+                   '%s.name = %r' % (ci.short, nm),
+                   detail={'expected': name}, site=site)
         is_soft = prog.is_subclass(ci, soft)
         is_hard = prog.is_subclass(ci, hard)
         chk.ob('C17.H', cons + '.kind',
@@ -141,6 +146,23 @@ def run(chk, ctx):
                isinstance(hs, int) and struct.calcsize(f) == hs,
                'calcsize(%r) = %d, FRAME_HEADER_SIZE = %r' %
                (f, struct.calcsize(f), hs))
+    # the constants are what the module says for the whole life of the
+    # process: no function of the package rebinds or stores into them
+    from .c16 import syntactic_writes
+    writers = []
+    for fi in prog.functions.values():
+        for site_, what in syntactic_writes(prog, fi):
+            if 'constants.' in what or (fi.module.name.endswith(
+                    '.constants') and 'module' in what):
+                writers.append('%s at %s (%s)' % (what, site_, fi.short))
+    dyn = ctx.static().dynamic_globals
+    for (mod, name), fis in dyn.items():
+        if mod.endswith('.constants') or mod.endswith('.exceptions'):
+            writers.append('global %s.%s rebound by %s' % (
+                mod, name, ', '.join(f.short for f in fis)))
+    chk.ob('C17.C', 'run-time writers of the constants', not writers,
+           'no function stores into pamqp.constants' if not writers else
+           '; '.join(writers[:3]))
     chk.floor('C17.C', 12, 'constant facts')
     chk.units['reply_codes'] = len(codes)
 
